@@ -29,10 +29,21 @@ type c10Variant struct {
 	Sublayout bool
 	DSSE      bool
 	RunDir    bool
+	// LayoutKeys: "" (one owner key) | two-signers (two supplied keys, both signed: accept) |
+	// unsigned-second (second supplied key has no signature: reject) | invalid-second (its signature is corrupt: reject)
+	LayoutKeys string
+	RelExe     bool // the inspection runs an executable given by a relative path with a separator
 }
 
 func (v c10Variant) String() string {
-	return fmt.Sprintf("T=%d disagree=%v sublayout=%v dsse=%v rundir=%v", v.Threshold, v.Disagree, v.Sublayout, v.DSSE, v.RunDir)
+	s := fmt.Sprintf("T=%d disagree=%v sublayout=%v dsse=%v rundir=%v", v.Threshold, v.Disagree, v.Sublayout, v.DSSE, v.RunDir)
+	if v.LayoutKeys != "" {
+		s += " layoutkeys=" + v.LayoutKeys
+	}
+	if v.RelExe {
+		s += " relative-inspection-executable"
+	}
+	return s
 }
 
 type c10Chain struct {
@@ -62,6 +73,20 @@ func buildC10(c *core.Ctx, v c10Variant, root string) (*c10Chain, error) {
 	build.ExpectedCommand = []string{"make", "{PRODUCT}"}
 	test := gen.Step("test", 1, gen.KeyIDs(B), [][]string{{"MATCH", "{PRODUCT}", "WITH", "PRODUCTS", "FROM", "build"}, {"DISALLOW", "*"}}, [][]string{{"ALLOW", "*"}})
 	insp := gen.Inspection("check", []string{Helper(c), "touch", filepath.Join(ch.markerDir, "mark{MARK}")}, [][]string{{"ALLOW", "*"}}, [][]string{{"ALLOW", "*"}})
+	if v.RelExe {
+		// ./tools/run.sh relative to the directory the inspection runs in (and, harmlessly, to the caller's
+		// working directory of the run-directory entry point); a tiny wrapper around the helper
+		for _, d := range []string{ch.finalDir, root} {
+			mkdirs(filepath.Join(d, "tools"))
+			os.WriteFile(filepath.Join(d, "tools", "run.sh"), []byte("#!/bin/sh\nexec "+Helper(c)+" \"$@\"\n"), 0755)
+		}
+		insp.Run[0] = "./tools/run.sh"
+		// no markers in the step rules here: the chain is accepted - and the inspection run - with every
+		// dictionary, in particular with the empty one (for which substitution hands back the caller's layout)
+		build.ExpectedProducts = [][]string{{"CREATE", "bin/app"}, {"DISALLOW", "*"}}
+		build.ExpectedCommand = []string{"make", "bin/app"}
+		test.ExpectedMaterials = [][]string{{"MATCH", "bin/app", "WITH", "PRODUCTS", "FROM", "build"}, {"DISALLOW", "*"}}
+	}
 	layout := gen.NewLayout([]intoto.Step{build, test}, []intoto.Inspection{insp}, gen.KeyMap(A, B))
 	layout.RootCas = map[string]intoto.Key{ca.Key.KeyID: ca.Key}
 	app := map[string]string{"bin/app": "binary\n"}
@@ -88,13 +113,53 @@ func buildC10(c *core.Ctx, v c10Variant, root string) (*c10Chain, error) {
 		layout.Steps = append(layout.Steps, gen.Step("delegated", 1, gen.KeyIDs(D), [][]string{{"ALLOW", "*"}}, [][]string{{"ALLOW", "*"}}))
 		layout.Keys[D.Pub.KeyID] = D.Pub
 	}
-	md, err := gen.SignedMeta(layout, v.DSSE, owner.Priv)
+	signers := []intoto.Key{owner.Priv}
+	ch.keys = gen.KeyMap(owner)
+	switch v.LayoutKeys {
+	case "two-signers", "invalid-second":
+		signers = append(signers, fast[8].Priv)
+		ch.keys = gen.KeyMap(owner, fast[8])
+	case "unsigned-second":
+		ch.keys = gen.KeyMap(owner, fast[9])
+	}
+	md, err := gen.SignedMeta(layout, v.DSSE, signers...)
 	if err != nil {
 		return nil, err
 	}
 	ch.layoutPath = filepath.Join(root, "root.layout")
-	ch.keys = gen.KeyMap(owner)
-	return ch, md.Dump(ch.layoutPath)
+	if err := md.Dump(ch.layoutPath); err != nil {
+		return nil, err
+	}
+	if v.LayoutKeys == "invalid-second" {
+		// corrupt the signature of the second supplied key in the file
+		var doc map[string]any
+		b, _ := os.ReadFile(ch.layoutPath)
+		if err := json.Unmarshal(b, &doc); err != nil {
+			return nil, err
+		}
+		sigs, _ := doc["signatures"].([]any)
+		done := false
+		for _, x := range sigs {
+			sg, _ := x.(map[string]any)
+			if sg["keyid"] == fast[8].Pub.KeyID {
+				str, _ := sg["sig"].(string)
+				r := "0"
+				if str[10] == '0' {
+					r = "1"
+				}
+				sg["sig"] = str[:10] + r + str[11:]
+				done = true
+			}
+		}
+		if !done {
+			return nil, fmt.Errorf("second signature not found")
+		}
+		b, _ = json.Marshal(doc)
+		if err := os.WriteFile(ch.layoutPath, b, 0644); err != nil {
+			return nil, err
+		}
+	}
+	return ch, nil
 }
 
 func snapshotMeta(md intoto.Metadata, workDir string) string {
@@ -179,6 +244,10 @@ func runC10(c *core.Ctx) {
 				}
 			}
 			variants = append(variants, c10Variant{Threshold: 2, Sublayout: true, DSSE: dsse, RunDir: runDir})
+			for _, lk := range []string{"two-signers", "unsigned-second", "invalid-second"} {
+				variants = append(variants, c10Variant{Threshold: 1, DSSE: dsse, RunDir: runDir, LayoutKeys: lk})
+			}
+			variants = append(variants, c10Variant{Threshold: 1, DSSE: dsse, RunDir: runDir, RelExe: true})
 		}
 	}
 	names := []string{"none", "p", "q", "r"}
@@ -257,6 +326,16 @@ func runC10(c *core.Ctx) {
 					c.Violation(fmt.Sprintf("verifying the same inputs gives different results (%d distinct outcomes in %d runs; %s)", len(outcomes), R, variantClass(v)), id, detail)
 				}
 				baseline[dn] = first
+				if dn == "p" {
+					switch {
+					case v.LayoutKeys == "two-signers" && first.Accepted:
+						c.Obs("two_layout_keys_both_signed_accepted", 1)
+					case (v.LayoutKeys == "unsigned-second" || v.LayoutKeys == "invalid-second") && !first.Accepted:
+						c.Obs("two_layout_keys_one_not_signed_rejected", 1)
+					case v.RelExe && first.Accepted && first.Markers == "mark1" && baseline["none"].Accepted:
+						c.Obs("relative_inspection_executable_ran", 1)
+					}
+				}
 				c.SetAdd("distinct_outcomes_per_case", fmt.Sprintf("%d", len(outcomes)))
 			}
 			// the history on ONE in-memory object
@@ -321,19 +400,27 @@ func runC10(c *core.Ctx) {
 }
 
 func variantClass(v c10Variant) string {
-	return fmt.Sprintf("threshold %d, disagreeing surplus link=%v, sublayout=%v, dsse=%v, rundir=%v", v.Threshold, v.Disagree, v.Sublayout, v.DSSE, v.RunDir)
+	s := fmt.Sprintf("threshold %d, disagreeing surplus link=%v, sublayout=%v, dsse=%v, rundir=%v", v.Threshold, v.Disagree, v.Sublayout, v.DSSE, v.RunDir)
+	if v.LayoutKeys != "" {
+		s += ", layout keys " + v.LayoutKeys
+	}
+	if v.RelExe {
+		s += ", relative inspection executable"
+	}
+	return s
 }
 
 func init() {
 	core.Register(&core.Property{
 		ID:    "C10",
 		Level: "exploration",
-		Rule: "chains biased to the anchors: step with one key-authorized and one certificate-authorized link (threshold 0, 1 and 2; the two links agreeing or disagreeing), certificate constraint lists that are not sorted, rules / expected command / inspection run with {PRODUCT} and {MARK} markers, a link whose artifact path needs cleaning (./bin//app) consumed by a MATCH rule, optionally a step delegated to a sublayout; 2 wrappers x 2 entry points; all histories of length<=2 plus 12 of length 3 (quick) / all of length<=3 plus 30 of length 4 (thorough) over the dictionaries {none, p (accepting), q (rejecting), r (a value containing another parameter's marker)} on ONE in-memory layout object: every outcome (verdict, summary, executed marker) must equal the outcome of a freshly loaded copy, and the serialisation of the layout object (payload, signatures, dumped envelope), of the key map and of the dictionary must be unchanged after every call; each baseline is repeated R=16 (quick) / 64 (thorough) times and each history R/4 times with fresh maps. " +
+		Rule: "chains biased to the anchors: step with one key-authorized and one certificate-authorized link (threshold 0, 1 and 2; the two links agreeing or disagreeing), certificate constraint lists that are not sorted, rules / expected command / inspection run with {PRODUCT} and {MARK} markers, a link whose artifact path needs cleaning (./bin//app) consumed by a MATCH rule, optionally a step delegated to a sublayout, two supplied layout keys (both signed / second without a signature / second with a corrupt signature), an inspection executable given by a relative path; 2 wrappers x 2 entry points; all histories of length<=2 plus 12 of length 3 (quick) / all of length<=3 plus 30 of length 4 (thorough) over the dictionaries {none, p (accepting), q (rejecting), r (a value containing another parameter's marker)} on ONE in-memory layout object: every outcome (verdict, summary, executed marker) must equal the outcome of a freshly loaded copy, and the serialisation of the layout object (payload, signatures, dumped envelope), of the key map and of the dictionary must be unchanged after every call; each baseline is repeated R=16 (quick) / 64 (thorough) times and each history R/4 times with fresh maps. " +
 			"non-trivial = history of length>=2 or R>=2 with >=2 links in a step; distinct = (variant, history)",
 		Assumptions: []string{"the iteration order taken inside the library is not observable; reported are R, the number of distinct outcomes per case and the number of distinct orders a same-sized probe map showed in the same process"},
 		Workers:     func(string) int { return 16 },
 		Floors: func(string) map[string]int64 {
-			return map[string]int64{"history_steps_equal_to_fresh_baseline": 1000, "histories_with_untouched_inputs": 500, "map_orders_seen_in_calibration": 2}
+			return map[string]int64{"history_steps_equal_to_fresh_baseline": 1000, "histories_with_untouched_inputs": 500, "map_orders_seen_in_calibration": 2,
+				"two_layout_keys_both_signed_accepted": 1, "two_layout_keys_one_not_signed_rejected": 2, "relative_inspection_executable_ran": 1}
 		},
 		Run:      runC10,
 		TimeoutS: func(t string) int { return 2400 },
